@@ -758,6 +758,11 @@ pub fn run(args: &Args) -> i32 {
                 }
                 for (t, pert) in todo {
                     runno += 1;
+                    out.ev(json!({"op": "begin", "case": inp.id, "run": format!("{}/{}/{}/t{}/{}{}#{}", inp.id, sel, v.key,
+                                      t.map(|x| x as i64).unwrap_or(0), pert.kind, pert.seed, runno),
+                                  "alg": sel, "variant": v.key, "threads": t.map(|x| x as i64).unwrap_or(0), "base": t.is_none(),
+                                  "bkey": format!("{}/{}", sel, v.key), "pert": pert.kind, "n": dn(&inp.n), "n_dec": inp.n.to_string()}));
+                    out.flush();
                     let polls = Arc::new(AtomicUsize::new(0));
                     let stats = install_pert(&pert);
                     let vv = v.clone();
@@ -782,6 +787,7 @@ pub fn run(args: &Args) -> i32 {
                         e[k] = v.clone();
                     }
                     out.ev(e);
+                    out.flush();
                     if r.hung {
                         // the abandoned thread keeps writing into the process-wide sink: stop this process
                         stop = true;
